@@ -38,7 +38,7 @@ func (c02) Describe() core.Info {
 }
 
 func (c02) Gen(r *rand.Rand, tier string, i int) any {
-	o := gen.ProgOpts{Negation: r.Intn(2) == 0, Compare: true, Functions: r.Intn(4) == 0, Lists: r.Intn(3) == 0, Do: true, DoPercent: 66, Mix: r.Intn(3) == 0,
+	o := gen.ProgOpts{Negation: r.Intn(2) == 0, Compare: true, Functions: r.Intn(4) == 0, Lists: r.Intn(3) == 0, Do: true, DoPercent: 66, DoFilters: true, Mix: r.Intn(3) == 0,
 		Wildcards: false, DoWildcards: true, Shuffle: 0, Reducers: []string{"fn:count", "fn:sum", "fn:min", "fn:max", "fn:avg", "fn:collect_distinct", "fn:sum", "fn:count"}}
 	p := gen.RandProgram(r, o)
 	return progCase{Prog: p, FactsAsClauses: r.Intn(2) == 0, Text: progText(p)}
